@@ -265,42 +265,97 @@ func reflectionGuards(r *core.Run) {
 				return strings.Contains(core.ExprStr(ifs.Cond), "MapKey().Kind() != protoreflect.StringKind")
 			}},
 	})
-	// isOneofWrapper must look at every field of the message
+	oneofWrapperAllFields(r)
+	_ = fmt.Sprintf
+}
+
+// oneofWrapperAllFields (R-ERR/E4): an un-annotated message is taken for a oneof wrapper only
+// when no field lives outside its `oneof type`.
+func oneofWrapperAllFields(r *core.Run) {
+	r.Rule("R-ERR/E4", "isOneofWrapper (with its helpers) decides over all fields of the message: a loop over <MessageDescriptor>.Fields() that returns false for a field whose ContainingOneof() is not the oneof, or a comparison of the message's field count with the oneof's; looking only at the oneof's own fields takes an object with a `oneof type` and ordinary fields for a oneof")
 	fd, pk := r.P.FuncDecl(schemaRel, "isOneofWrapper")
 	if fd == nil {
 		r.Fatal("anchor: j5schema.isOneofWrapper not found")
 		return
 	}
 	info := pk.TypesInfo
-	msgParam := ""
-	for _, f := range fd.Type.Params.List {
-		if strings.HasSuffix(core.TypeStr(info.TypeOf(f.Type)), "protoreflect.MessageDescriptor") && len(f.Names) == 1 {
-			msgParam = f.Names[0].Name
-		}
-	}
 	o := r.Add("R-ERR/E4", schemaRel+".isOneofWrapper | every field of the message belongs to the oneof", fd.Pos(), "a message is a oneof wrapper only if it has no field outside the oneof")
-	ok := false
-	ast.Inspect(fd.Body, func(n ast.Node) bool {
-		fs, isFor := n.(*ast.ForStmt)
-		if !isFor || fs.Cond == nil || !strings.Contains(core.ExprStr(fs.Cond), msgParam+".Fields().Len()") {
+	fieldsOf := func(n ast.Node, suffix string) bool {
+		found := false
+		ast.Inspect(n, func(x ast.Node) bool {
+			if c, ok := x.(*ast.CallExpr); ok && len(c.Args) == 0 {
+				if s, ok := c.Fun.(*ast.SelectorExpr); ok && s.Sel.Name == "Fields" && strings.HasSuffix(core.TypeStr(info.TypeOf(s.X)), suffix) {
+					found = true
+				}
+			}
+			return !found
+		})
+		return found
+	}
+	returnsFalse := func(b *ast.BlockStmt) bool {
+		if b == nil || len(b.List) == 0 {
+			return false
+		}
+		ret, ok := b.List[len(b.List)-1].(*ast.ReturnStmt)
+		if !ok || len(ret.Results) != 1 {
+			return false
+		}
+		tv, ok := info.Types[ret.Results[0]]
+		return ok && tv.Value != nil && tv.Value.String() == "false"
+	}
+	how := ""
+	core.InspectTree(pk, fd.Body, func(n ast.Node) bool {
+		var body *ast.BlockStmt
+		switch x := n.(type) {
+		case *ast.ForStmt:
+			body = x.Body
+		case *ast.RangeStmt:
+			body = x.Body
+		case *ast.IfStmt:
+			// the field counts compared
+			if b, ok := core.Unparen(x.Cond).(*ast.BinaryExpr); ok && b.Op == token.NEQ && returnsFalse(x.Body) {
+				if (fieldsOf(b.X, "protoreflect.MessageDescriptor") && fieldsOf(b.Y, "protoreflect.OneofDescriptor")) || (fieldsOf(b.Y, "protoreflect.MessageDescriptor") && fieldsOf(b.X, "protoreflect.OneofDescriptor")) {
+					how = "compares the message's field count with the oneof's"
+				}
+			}
+			return true
+		default:
 			return true
 		}
-		ast.Inspect(fs.Body, func(m ast.Node) bool {
-			if ifs, isIf := m.(*ast.IfStmt); isIf && strings.Contains(core.ExprStr(ifs.Cond), "ContainingOneof() != ") && len(ifs.Body.List) == 1 {
-				if ret, isRet := ifs.Body.List[0].(*ast.ReturnStmt); isRet && len(ret.Results) == 1 && core.ExprStr(ret.Results[0]) == "false" {
-					ok = true
+		if !fieldsOf(n, "protoreflect.MessageDescriptor") {
+			return true
+		}
+		ast.Inspect(body, func(m ast.Node) bool {
+			ifs, isIf := m.(*ast.IfStmt)
+			if !isIf || !returnsFalse(ifs.Body) {
+				return true
+			}
+			hasCO, hasNeq := false, false
+			ast.Inspect(ifs.Cond, func(y ast.Node) bool {
+				switch z := y.(type) {
+				case *ast.SelectorExpr:
+					if z.Sel.Name == "ContainingOneof" {
+						hasCO = true
+					}
+				case *ast.BinaryExpr:
+					if z.Op == token.NEQ {
+						hasNeq = true
+					}
 				}
+				return true
+			})
+			if hasCO && hasNeq {
+				how = "loops over the message's Fields() and returns false for a field whose ContainingOneof() is not the oneof"
 			}
 			return true
 		})
 		return true
 	})
-	if ok {
-		o.Auto("loops over %s.Fields() and returns false for a field whose ContainingOneof() is not the oneof", msgParam)
+	if how != "" {
+		o.Auto("%s", how)
 	} else {
 		o.Fail("isOneofWrapper no longer checks all fields of the message: a message with ordinary fields next to a oneof named 'type' is reflected as a oneof, and the codec then fails on populated messages (multiple values set)")
 	}
-	_ = fmt.Sprintf
 }
 
 // accumulatorThreading (R-FLOW/acc): a function that carries an accumulated
